@@ -231,12 +231,19 @@ def run(ck, F):
     if ub is None:
         ck.undecided("R4", "utils", "-", "utils::read_input_file_and_xsd_files_at_path not found")
         return
-    B = I.inlined_body(F.lib, ub["path"], stop=lambda p: p.startswith(("reader::", "<reader::", "model::", "<model::", "error::")))
-    adds = B.calls_to("reader::Files::add")
-    news = B.calls_to("reader::Files::new")
-    ck.floor("R4", "Files::new/add calls", len(adds) + len(news), 2)
+    stop_ = lambda p: p.startswith(("reader::", "<reader::", "model::", "<model::", "error::"))       # noqa: E731
+    B0 = I.inlined_body(F.lib, ub["path"], stop=stop_)
+    # the closures the function hands to an iteration (`read_dir()?.try_for_each(|entry| ..)`) are part of it: each is judged as a
+    # body of its own (what it registers it reads itself)
+    units = [B0]
+    for _bb, cpath in I.closure_sites(B0):
+        CBi = I.inlined_body(F.lib, cpath, stop=stop_)
+        if CBi is not None:
+            units.append(CBi)
+    found_calls = [(Bx, c_) for Bx in units for c_ in Bx.calls_to("reader::Files::add") + Bx.calls_to("reader::Files::new")]
+    ck.floor("R4", "Files::new/add calls", len(found_calls), 2)
     ident = M.IDENTITY_CALLS + ("ops::Try::branch", "Option::<T>::ok_or", "Option::<T>::ok_or_else", "Option::<T>::unwrap", "Option::<T>::expect")
-    for bb, t in adds + news:
+    for B, (bb, t) in found_calls:
         is_add = (M.Body.callee_decl(t) or "").endswith("add")
         key_arg = t["args"][1] if is_add else t["args"][0]
         xml_arg = t["args"][2] if is_add else t["args"][1]
@@ -257,10 +264,11 @@ def run(ck, F):
     rule_all_siblings_visited(ck, F, ub)
     rule_every_import_followed(ck, F)
     # content of a sibling flows only into Files::add / Files::new
-    for bb, t in B.calls_to("fs::read_to_string"):
-        flows = M.result_flow(B, bb, t)
-        if {k for k, _ in flows} != {"propagated"}:
-            ck.violation("R4", "read-result", B.term(bb).get("sp"), f"read_to_string result is {flows}", fn=ub["path"])
+    for B in units:
+        for bb, t in B.calls_to("fs::read_to_string"):
+            flows = M.result_flow(B, bb, t)
+            if {k for k, _ in flows} != {"propagated"}:
+                ck.violation("R4", "read-result", B.term(bb).get("sp"), f"read_to_string result is {flows}", fn=ub["path"])
 
 
 TRUNCATING = ("take", "take_while", "map_while", "skip", "skip_while", "step_by", "scan", "nth", "last", "find", "find_map", "position", "peekable",
